@@ -162,9 +162,26 @@ NEGATIVE = [
     ("cycle-self", {"main.ddp": HEAD + 'Binde "main" ein.\nSchreibe 1 auf eine Zeile.\n'}),
     ("cycle-3", {"m1.ddp": HEAD + 'Binde "m2" ein.\nDie öffentliche Zahl a ist 1.\n', "m2.ddp": HEAD + 'Binde "m3" ein.\nDie öffentliche Zahl b ist 2.\n',
                  "m3.ddp": HEAD + 'Binde "m1" ein.\nDie öffentliche Zahl c ist 3.\n', "main.ddp": HEAD + 'Binde "m1" ein.\nSchreibe a auf eine Zeile.\n'}),
+    ("dir-missing", {"main.ddp": HEAD + 'Binde alle Module aus "gibtsnicht" ein.\nSchreibe 1 auf eine Zeile.\n'}),
+    ("dir-missing-recursive", {"main.ddp": HEAD + 'Binde rekursiv alle Module aus "gibts/nicht" ein.\nSchreibe 1 auf eine Zeile.\n'}),
+    ("dir-contains-importer", {"m1.ddp": HEAD + "Die öffentliche Zahl g1 ist 1.\n", "main.ddp": HEAD + 'Binde alle Module aus "." ein.\nSchreibe g1 auf eine Zeile.\n'}),
+    ("dir-with-broken-module", {"pkg/m1.ddp": HEAD + "Die öffentliche Zahl g1 ist 1.\n", "pkg/m2.ddp": HEAD + 'Die öffentliche Zahl g2 ist "text".\n',
+                                "main.ddp": HEAD + 'Binde alle Module aus "pkg" ein.\nSchreibe g1 auf eine Zeile.\n'}),
+    ("dir-nested-not-visible-nonrecursive", {"pkg/tief/m1.ddp": HEAD + "Die öffentliche Zahl g1 ist 1.\n", "pkg/m2.ddp": HEAD + "Die öffentliche Zahl g2 ist 2.\n",
+                                             "main.ddp": HEAD + 'Binde alle Module aus "pkg" ein.\nSchreibe g1 auf eine Zeile.\n'}),
+    ("dir-cycle", {"pkg/m1.ddp": HEAD + 'Binde alle Module aus "../pkg2" ein.\nDie öffentliche Zahl g1 ist 1.\n',
+                   "pkg2/m2.ddp": HEAD + 'Binde alle Module aus "../pkg" ein.\nDie öffentliche Zahl g2 ist 2.\n',
+                   "main.ddp": HEAD + 'Binde alle Module aus "pkg" ein.\nSchreibe g1 auf eine Zeile.\n'}),
     ("private-field", {"m1.ddp": HEAD + 'Wir nennen die öffentliche Kombination aus\n\tder Zahl innen mit Standardwert 1,\n\tder öffentlichen Zahl aussen mit Standardwert 2,\n'
                                         'einen Kasten, und erstellen sie so:\n\t"ein_Kasten"\n',
                        "main.ddp": HEAD + 'Binde "m1" ein.\nDer Kasten k ist ein_Kasten.\nSchreibe (innen von k) auf eine Zeile.\n'}),
+]
+# directory imports of directories without modules: rejected or accepted, but answered (never a crash of the code generator)
+ANSWERED = [
+    ("dir-empty", {"leer/.keep": "", "main.ddp": HEAD + 'Binde alle Module aus "leer" ein.\nSchreibe 1 auf eine Zeile.\n'}),
+    ("dir-only-other-files", {"daten/a.txt": "a", "daten/b.ddp.bak": "Die Zahl", "main.ddp": HEAD + 'Binde alle Module aus "daten" ein.\nSchreibe 1 auf eine Zeile.\n'}),
+    ("dir-nested-only-nonrecursive", {"pkg/tief/m1.ddp": HEAD + "Die öffentliche Zahl g1 ist 1.\n", "main.ddp": HEAD + 'Binde alle Module aus "pkg" ein.\nSchreibe 1 auf eine Zeile.\n'}),
+    ("dir-is-a-file", {"ding.ddp": HEAD + "Die öffentliche Zahl g1 ist 1.\n", "main.ddp": HEAD + 'Binde alle Module aus "ding.ddp" ein.\nSchreibe 1 auf eine Zeile.\n'}),
 ]
 POSITIVE = [
     ("public-field", {"m1.ddp": HEAD + 'Wir nennen die öffentliche Kombination aus\n\tder Zahl innen mit Standardwert 1,\n\tder öffentlichen Zahl aussen mit Standardwert 2,\n'
@@ -238,6 +255,13 @@ def check(res, tier):
         if r.cls != "compile-rejected":
             res.violation("negative:" + name, "%s was not rejected with a diagnostic: %s" % (name, r.cls),
                           {"files": files, "program": files["main.ddp"], "expected": "rejected with a diagnostic", "implementation": r.as_dict()})
+    ans = pipeline.farm(ddp, [(f, cfg, {"timeout": 20}) for _, f in ANSWERED])
+    for (name, files), r in zip(ANSWERED, ans):
+        res.evaluations += 1
+        res.nontrivial("answered:" + name)
+        if r.cls not in ("compile-rejected", "ok"):
+            res.violation("answered:" + name, "%s is neither compiled nor rejected with a diagnostic: %s" % (name, r.cls),
+                          {"files": files, "program": files["main.ddp"], "expected": "an executable or a diagnostic", "implementation": r.as_dict()})
     posr = pipeline.farm(ddp, [(f, cfg, {}) for _, f, _ in POSITIVE])
     for (name, files, want), r in zip(POSITIVE, posr):
         res.evaluations += 1
@@ -249,11 +273,15 @@ def check(res, tier):
         res.violation("obligation:" + bk["name"], "proof obligation no longer checks: %s" % bk["name"],
                       {"theorem": bk["name"], "detail": bk["detail"], "kind": "broken-obligation"}, has_input=False)
     res.extra.update({"module_graphs": len(cases), "configs": [c.name() for c in cfgs], "outcomes": dict(st),
-                      "negative_programs": [n for n, _ in NEGATIVE], "positive_programs": [n for n, _, _ in POSITIVE],
+                      "negative_programs": [n for n, _ in NEGATIVE], "answered_programs": [n for n, _ in ANSWERED], "positive_programs": [n for n, _, _ in POSITIVE],
                       "graph_sizes": dict(Counter(c[0] for c in cases))})
     res.rule = ("ranked module DAGs of 2..5 modules, imports in random order, whole-module and by-name imports; each module: public global "
                 "(initialiser prints and adds the imported modules' globals), private global, same private name in all modules, public "
                 "function reading the private ones, a top-level statement; main imports a random subset in random order between prints: "
                 "stdout equal to the model's initialisation sequence; fixed negative programs (private / unlisted / unknown / transitive "
-                "names, private field, import cycles of length 1, 2, 3) must be rejected with a diagnostic")
-    res.assumptions += ["the model walks a DAG without in-progress marks; import cycles are outside it and must be rejected by the front end (checked)"]
+                "names, private field, import cycles of length 1, 2, 3, missing / self-containing / cyclic directories, a broken module in a "
+                "directory) must be rejected with a diagnostic; directories without modules must be answered (compiled or rejected, no crash); "
+                "half of the graphs place modules in pkg/ and pkg/tief/ and use (recursive) directory imports, whose modules arrive in "
+                "filepath.WalkDir order")
+    res.assumptions += ["a directory import stands for its modules in lexical path order (filepath.WalkDir); the expansion is done by the harness, the model sees the expanded import lists",
+                        "the model walks a DAG without in-progress marks; import cycles are outside it and must be rejected by the front end (checked)"]
